@@ -32,7 +32,8 @@ const char *killat_name[KA_N] = {"any", "write", "fopen", "locked", "fclose", "r
 // frac x (size of the job file before the rewrite) bytes have reached the file
 struct KillSpec { int proc = 0; int at = KA_ANY; int nth = 1; double frac = 0.5; int file = 0; long abs_bytes = -1; /* >= 0: exact byte offset (enumeration) */
                   bool sigterm = false; /* deliver SIGTERM instead of SIGKILL: a registered handler runs first (the code as given has none) */
-                  int stall_s = 0;      /* > 0: not a kill at all: the task sleeps this many simulated seconds (suspended / very slow process) */ };
+                  int stall_s = 0;      /* > 0: not a kill at all: the task sleeps this many TICKS of simulated time (suspended / very slow process;
+                                           40 / 2000 / 20000 ticks = 2 s / 100 s / 1000 s at 50 ms per tick, 1000 times less at 1 ms) */ };
 
 enum StartKind { ST_NOW = 0, ST_AFTER_SYNCS, ST_AFTER_END, ST_PHASE2 };
 
@@ -663,7 +664,7 @@ struct Jobs {
         k.frac = r.chance(0.4) ? fr[r.below(6)] : r.unit() * 1.15;
         k.file = r.chance(0.6) ? 0 : 1;
         k.sigterm = k.at != KA_WRITE && r.chance(0.3);
-        if (k.at != KA_WRITE && r.chance(0.2)) { k.sigterm = false; int ss[3] = {2, 90, 900}; k.stall_s = ss[r.below(3)]; }
+        if (k.at != KA_WRITE && r.chance(0.2)) { k.sigterm = false; int ss[3] = {40, 2000, 20000}; k.stall_s = ss[r.below(3)]; }
         p.kills.push_back(k);
       }
       p.short_write = r.chance(0.5) ? 0 : (r.chance(0.5) ? 0.1 : 0.4);
@@ -924,6 +925,7 @@ struct Jobs {
     sim::Config cfg;
     spec.apply(cfg, plan);
     cfg.budget = 400000;
+    for (auto &k : plan.kills) if (k.stall_s > 0) cfg.budget += 10L * k.stall_s;  // tasks that poll while a process is suspended
     cfg.pct_span = 600;
     cfg.tick_ns = (long long)plan.tick_ms * 1000000LL;
     std::vector<uint64_t> states;
@@ -973,8 +975,8 @@ struct Jobs {
             if (stall > 0) {
               w.counters["fault.stall"]++;
               if (simio::lock_mode_of(sp)) w.counters["probe.stall_while_holding_file_lock"]++;
-              w.note("STALL p" + std::to_string(q) + " for " + std::to_string(stall) + " s at " + killat_name[at]);
-              sim::sleep_ns((long long)stall * 1000000000LL);
+              w.note("STALL p" + std::to_string(q) + " for " + std::to_string(stall) + " ticks at " + killat_name[at]);
+              sim::sleep_ns((long long)stall * sim::tick_ns());
               return;
             }
             bool term = false;
